@@ -42,6 +42,32 @@ def _limits(cpu_s, mem_bytes=3 << 30):
     return f
 
 
+_PRLIMIT = []
+
+
+def _limited(exe, cpu_s, mem_bytes=3 << 30):
+    """-> (argv, preexec_fn): the tool under CPU/memory/stack limits.  With util-linux `prlimit` the limits are set by a
+    wrapper command, so that Python can start the process without fork(): forking the check (hundreds of MB of parsed
+    dumps, a dozen worker threads) for every batch write-protects its whole heap each time."""
+    if not _PRLIMIT:
+        import shutil
+        w = shutil.which("prlimit")
+        stack = None
+        if w:
+            for st in ("unlimited:unlimited", str(1 << 30)):
+                try:
+                    if subprocess.run([w, "--stack=" + st, "true"], stdout=subprocess.DEVNULL, stderr=subprocess.DEVNULL).returncode == 0:
+                        stack = st
+                        break
+                except OSError:
+                    pass
+        _PRLIMIT.append((w, stack) if w and stack else None)
+    if _PRLIMIT[0] is None:
+        return [exe], _limits(cpu_s, mem_bytes)
+    w, stack = _PRLIMIT[0]
+    return [w, "--stack=" + stack, "--as=%d" % mem_bytes, "--cpu=%d:%d" % (cpu_s, cpu_s + 1), exe], None
+
+
 SENTINEL = 4294967295
 SENTINEL_MODEL = 99999     # Passes/Compact.v `sentinel` (a unary nat in the extracted tool)
 
@@ -79,7 +105,28 @@ def encode_job(v):
     return json.dumps(v, separators=(",", ":"))
 
 
-def run_model_parallel(exe, values, workers=None, batch=24, cpu_per_job=6):
+class Lazy:
+    """an output line of the model tool, parsed on demand (the canonical `show` of a module is large and the tie first
+    compares the text of two lines: the tool prints equal values as equal text)"""
+    __slots__ = ("text", "_v")
+
+    def __init__(self, text):
+        self.text = text
+        self._v = None
+
+    def value(self):
+        if self._v is None:
+            self._v = json.loads(self.text)
+        return self._v
+
+    def get(self, k, default=None):
+        return self.value().get(k, default)
+
+    def __getitem__(self, k):
+        return self.value()[k]
+
+
+def run_model_parallel(exe, values, workers=None, batch=24, cpu_per_job=6, lazy=False):
     """Like vcheck.run_model, split over worker processes in small batches; keeps order.
     Every process is limited in CPU time and memory (not wall time: the machine may be loaded);
     a job that exceeds them (e.g. the reference interpreter converting an index of 2^31 to a
@@ -90,16 +137,31 @@ def run_model_parallel(exe, values, workers=None, batch=24, cpu_per_job=6):
     out = [None] * len(values)
     batches = [list(range(i, min(i + batch, len(values)))) for i in range(0, len(values), batch)]
 
+    tmpdir = os.path.join(vcheck.BUILD, "tmp")
+    os.makedirs(tmpdir, exist_ok=True)
+
     def call(idx, cpu):
-        inp = "".join(encode_job(values[i]) + "\n" for i in idx)
-        try:
-            p = subprocess.run([exe], input=inp, stdout=subprocess.PIPE, stderr=subprocess.PIPE, text=True,
-                               timeout=3600, preexec_fn=_limits(cpu))
-        except subprocess.TimeoutExpired:
-            return None
-        lines = [l for l in p.stdout.splitlines() if l.strip()]
+        # input and output travel through unnamed files in build/tmp: megabytes of module text per batch would
+        # otherwise be pumped through pipes by a Python-level poll loop in every worker thread
+        import tempfile
+        with tempfile.TemporaryFile(dir=tmpdir) as fin, tempfile.TemporaryFile(dir=tmpdir) as fout:
+            for i in idx:
+                fin.write(encode_job(values[i]).encode("utf-8"))
+                fin.write(b"\n")
+            fin.flush()
+            fin.seek(0)
+            argv, pre = _limited(exe, cpu)
+            try:
+                p = subprocess.run(argv, stdin=fin, stdout=fout, stderr=subprocess.DEVNULL, timeout=3600, preexec_fn=pre)
+            except subprocess.TimeoutExpired:
+                return None
+            fout.seek(0)
+            stdout = fout.read().decode("utf-8", errors="replace")
+        lines = [l for l in stdout.splitlines() if l.strip()]
         if p.returncode != 0 or len(lines) != len(idx):
             return None
+        if lazy:
+            return [Lazy(l) for l in lines] if all(l.startswith("{") and l.endswith("}") for l in lines) else None
         try:
             return [json.loads(l) for l in lines]
         except Exception:
